@@ -73,6 +73,9 @@ func (m *Mutex) Unlock() {
 	}
 	m.held = false
 	m.owner = nil
+	// releasing a lock is a scheduling point too: the window right after an
+	// Unlock (before the next statement of the releasing task) must be reachable
+	s.yield()
 }
 
 // RWMutex replaces sync.RWMutex. Writer preference as in the runtime: a
@@ -165,6 +168,7 @@ func (m *RWMutex) Unlock() {
 		panic("sync: Unlock of unlocked RWMutex")
 	}
 	m.wheld, m.writer = false, nil
+	s.yield()
 }
 
 func (m *RWMutex) RLock() {
@@ -218,6 +222,9 @@ func (m *RWMutex) RUnlock() {
 	for i := len(m.readers) - 1; i >= 0; i-- {
 		if m.readers[i] == me {
 			m.readers = append(m.readers[:i], m.readers[i+1:]...)
+			if !me.killed {
+				s.yield()
+			}
 			return
 		}
 	}
